@@ -272,6 +272,13 @@ func TestScen(t *testing.T) {
 			[]Step{blk(TxD{K: "activate", P: 0})}, empty(7),
 			[]Step{blk(TxD{K: "cancel", P: 0})}, empty(5))
 		runScenario(t, "cancel-illegal-activate-cancel", "C28", k, steps)
+	case "cancel-at-activation":
+		// a cancel transaction in exactly the block that activates the pending
+		// producer (registration + 5): DEV_LOG=1 shows the "listed in two state maps" line
+		for gap := 3; gap <= 6; gap++ {
+			steps := cat([]Step{blk(reg(0), reg(1))}, empty(gap), []Step{blk(TxD{K: "cancel", P: 0})}, empty(3))
+			runScenario(t, fmt.Sprintf("register, %d empty blocks, cancel", gap), "C28", baseKnobs(), steps)
+		}
 	case "lih":
 		runScenario(t, "last irreversible height", "C21", baseKnobs(), cat(early, empty(14), []Step{roll(1, 0)}))
 	}
